@@ -30,9 +30,19 @@ theorem cacheOpts_ignores (ign : List Nat) (a b : List ReqOpt) (o : ReqOpt) (h :
   unfold cacheOpts
   rw [List.filter_cons_of_neg (by simp [h])]
 
-theorem obsKey_eq_of_cacheOpts_eq (a b : List ReqOpt) (h : cacheOpts obsIgnore a = cacheOpts obsIgnore b) : obsKey a = obsKey b := by
-  unfold obsKey
+theorem reqKey_eq_of_cacheOpts_eq (code : Nat) (a b : List ReqOpt) (p : List Nat)
+    (h : cacheOpts obsIgnore a = cacheOpts obsIgnore b) : reqKey code a p = reqKey code b p := by
+  unfold reqKey reqDigest
   rw [digestInput_eq_of_cacheOpts_eq obsIgnore a b h]
+
+theorem obsKey_eq_of_cacheOpts_eq (a b : List ReqOpt) (h : cacheOpts obsIgnore a = cacheOpts obsIgnore b) : obsKey a = obsKey b :=
+  reqKey_eq_of_cacheOpts_eq 1 a b [] h
+
+/-- the payload of a request that is not a FETCH is not part of the key -/
+theorem reqKey_ignores_payload_unless_fetch (code : Nat) (a : List ReqOpt) (p q : List Nat) (h : code ≠ 5) :
+    reqKey code a p = reqKey code a q := by
+  unfold reqKey reqDigest
+  simp [h]
 
 /-! ### the digest input determines the cache-key options -/
 
@@ -145,14 +155,73 @@ theorem digestInput_bytes (ign : List Nat) : ∀ opts : List ReqOpt, WfOpts opts
       · exact digestInput_bytes ign rest hr b h1
     · exact digestInput_bytes ign rest hr b hb
 
+theorem le32_bytes (n : Nat) : ∀ b ∈ le32 n, b < 256 := by
+  intro b hb
+  unfold le32 at hb
+  simp only [List.mem_cons, List.not_mem_nil, or_false] at hb
+  rcases hb with h | h | h | h <;> omega
+
+theorem reqDigest_bytes (code : Nat) (a : List ReqOpt) (p : List Nat) (hc : code < 256) (ha : WfOpts a) (hp : WfPayload p) :
+    ∀ b ∈ reqDigest code a p, b < 256 := by
+  intro b hb
+  unfold reqDigest at hb
+  rcases List.mem_cons.mp hb with h | h
+  · omega
+  · rcases List.mem_append.mp h with h1 | h1
+    · split at h1
+      · rcases List.mem_append.mp h1 with h2 | h2
+        · exact le32_bytes _ b h2
+        · exact hp.2 b h2
+      · simp at h1
+    · exact digestInput_bytes obsIgnore a ha b h1
+
+/-- the digest input determines method, cache-key options and — for FETCH — the payload -/
+theorem reqDigest_injective (m m' : Nat) (a b : List ReqOpt) (p q : List Nat) (hp : WfPayload p) (hq : WfPayload q)
+    (h : reqDigest m a p = reqDigest m' b q) :
+    m = m' ∧ digestInput obsIgnore a = digestInput obsIgnore b ∧ (m = 5 → p = q) := by
+  unfold reqDigest at h
+  simp only [List.cons.injEq] at h
+  obtain ⟨hm, h⟩ := h
+  subst hm
+  refine ⟨rfl, ?_⟩
+  by_cases h5 : m = 5
+  · subst h5
+    simp only [beq_self_eq_true, if_true, List.append_assoc] at h
+    have hl : (le32 p.length).length = (le32 q.length).length := rfl
+    obtain ⟨h1, h2⟩ := List.append_inj h hl
+    have hlen : p.length = q.length := le32_inj _ _ hp.1 hq.1 h1
+    obtain ⟨h3, h4⟩ := List.append_inj h2 hlen
+    exact ⟨h4, fun _ => h3⟩
+  · have : (m == 5) = false := by simp [h5]
+    simp only [this] at h
+    exact ⟨h, fun x => absurd x h5⟩
+
+/-- equal keys <=> same method, equal cache-key options and, for FETCH, equal payloads -/
+theorem reqKey_eq_iff (m m' : Nat) (a b : List ReqOpt) (p q : List Nat) (hm : m < 256) (hm' : m' < 256)
+    (ha : WfOpts a) (hb : WfOpts b) (hp : WfPayload p) (hq : WfPayload q) :
+    reqKey m a p = reqKey m' b q ↔ m = m' ∧ cacheOpts obsIgnore a = cacheOpts obsIgnore b ∧ (m = 5 → p = q) := by
+  constructor
+  · intro h
+    unfold reqKey at h
+    obtain ⟨h1, h2, h3⟩ := reqDigest_injective m m' a b p q hp hq
+      (encBytes_injective _ _ (reqDigest_bytes m a p hm ha hp) (reqDigest_bytes m' b q hm' hb hq) h)
+    exact ⟨h1, digestInput_injective obsIgnore a b ha hb h2, h3⟩
+  · rintro ⟨rfl, h2, h3⟩
+    by_cases h5 : m = 5
+    · rw [h3 h5]
+      exact reqKey_eq_of_cacheOpts_eq m a b q h2
+    · rw [reqKey_ignores_payload_unless_fetch m a p q h5]
+      exact reqKey_eq_of_cacheOpts_eq m a b q h2
+
+theorem wfPayload_nil : WfPayload [] := ⟨by decide, fun _ h => by simp at h⟩
+
 /-- equal keys <=> equal cache-key options: the key forgets exactly the options that are not part of the identity -/
 theorem obsKey_eq_iff (a b : List ReqOpt) (ha : WfOpts a) (hb : WfOpts b) :
     obsKey a = obsKey b ↔ cacheOpts obsIgnore a = cacheOpts obsIgnore b := by
+  unfold obsKey
+  rw [reqKey_eq_iff 1 1 a b [] [] (by decide) (by decide) ha hb wfPayload_nil wfPayload_nil]
   constructor
-  · intro h
-    unfold obsKey at h
-    exact digestInput_injective obsIgnore a b ha hb
-      (encBytes_injective _ _ (digestInput_bytes obsIgnore a ha) (digestInput_bytes obsIgnore b hb) h)
-  · exact obsKey_eq_of_cacheOpts_eq a b
+  · exact fun h => h.2.1
+  · exact fun h => ⟨rfl, h, fun _ => rfl⟩
 
 end Coap.Observe
